@@ -20,7 +20,11 @@ META = {
         'definition; in-place statements are also checked for unchanged target length, source operands for being '
         'left unchanged. A seed-independent boundary table (lengths 0,1,2,254,255 x arguments -32768,-1,0,1,2,len-1,'
         'len,len+1,254,255,256,257,32767) runs in both tiers; random strings over all 256 byte values and random '
-        'arguments make up the volume (about 40 k statements quick, 800 k thorough).'),
+        'arguments make up the volume (about 40 k statements quick, 800 k thorough). LSET, RSET and MID$= are also '
+        'run INSIDE stored programs on targets that still point into the program text (a quoted literal assigned in a '
+        'program line, a copy C$=A$ of such a variable, an array element, a second in-place statement on the same '
+        'target); the copy must not change the original, and the program is run twice (the literal in the program text '
+        'must not be modified).'),
     'level_note': (
         'Trusted: the harness, Python bytes slicing. Edges the statement does not pin are either not generated or '
         'accept the plausible set: STRING$(n,"") is not generated; a numeric argument outside -32768..32767 must give '
@@ -36,7 +40,8 @@ META = {
     'design_ref': 'DESIGN.md section 4 C09',
     'assumptions': ['GW-BASIC manual definitions as transcribed in vf/models/c09_rstr.py',
                     'set_variable/get_variable move string bytes unchanged (C43)'],
-    'require_counters': {'any': ['ifc_seen', 'string_too_long_seen', 'overlap_effective_seen', 'len255_operand_seen']},
+    'require_counters': {'any': ['ifc_seen', 'string_too_long_seen', 'overlap_effective_seen', 'len255_operand_seen',
+                                 'program_text_target_cases', 'second_inplace_on_same_target_cases']},
     'timeout': {'quick': 900, 'thorough': 7200},
 }
 
@@ -54,10 +59,10 @@ def plan(tier, seed):
     shards = [{'kind': 'directed', 'part': i, 'parts': 4} for i in range(4)]
     if tier == 'quick':
         for i in range(10):
-            shards.append({'kind': 'random', 'n': 3400, 'part': i})
+            shards.append({'kind': 'random', 'n': 3000, 'part': i})
     else:
         for i in range(32):
-            shards.append({'kind': 'random', 'n': 24000, 'part': i})
+            shards.append({'kind': 'random', 'n': 21500, 'part': i})
     return shards
 
 
@@ -332,6 +337,172 @@ class Runner(object):
                               c.stmt, c.a[:30], a_after[:30], c.b[:30], b_after[:30]), casej)
 
 
+
+# ---------------------------------------------------------------------------------------------
+# in-place statements inside a stored program on targets that still point into the PROGRAM TEXT
+
+PT_VARIANTS = {
+    # name: (assignment of the literal, optional copy line, origin expression, target expression)
+    'scalar': (b'T$=', None, b'T$', b'T$'),
+    'element': (b'T$(2)=', None, b'T$(2)', b'T$(2)'),
+    'copy': (b'T$=', b'C$=T$', b'T$', b'C$'),
+    'copy-to-element': (b'T$=', b'T$(1)=T$', b'T$', b'T$(1)'),
+    'copy-of-element': (b'T$(2)=', b'C$=T$(2)', b'T$(2)', b'C$'),
+}
+
+
+def pt_stmt_text(st, tgt):
+    """st = ('lset'|'rset', srcform, src) or ('mid', start, n|None, srcform, src); srcform 'lit' or 'var' (B$)."""
+    if st[0] in ('lset', 'rset'):
+        src = (b'"' + st[2] + b'"') if st[1] == 'lit' else b'B$'
+        return st[0].upper().encode() + b' ' + tgt + b'=' + src
+    src = (b'"' + st[4] + b'"') if st[3] == 'lit' else b'B$'
+    args = b'%d' % st[1] + (b',%d' % st[2] if st[2] is not None else b'')
+    return b'MID$(' + tgt + b',' + args + b')=' + src
+
+
+def pt_reference(cur, st):
+    if st[0] == 'lset':
+        return R.lset(cur, st[2])
+    if st[0] == 'rset':
+        return R.rset(cur, st[2])
+    return R.mid_statement(cur, st[1], st[2], st[4])
+
+
+def run_progtext(runner, lit, variant, stmts, sample=False):
+    """
+    10 <origin>="<lit>" / 20 [copy] / 30 <in-place 1> / 40 [<in-place 2>] / 50 END, reached with GOTO 10,
+    executed twice (a literal modified inside the program text would show in the second run).
+    All 'var' sources of one case share B$ (the last one planted): the builder gives them the same value.
+    """
+    res, h = runner.res, runner.h
+    box = runner._box()
+    runner.calls += 1
+    assign, copy, origin, tgt = PT_VARIANTS[variant]
+    lines = [b'10 ' + assign + b'"' + lit + b'"']
+    if copy:
+        lines.append(b'20 ' + copy)
+    for i, st in enumerate(stmts):
+        lines.append(b'%d ' % (30 + 10 * i) + pt_stmt_text(st, tgt))
+    lines.append(b'90 END')
+    bval = b''
+    for st in stmts:
+        if (st[1] if st[0] != 'mid' else st[3]) == 'var':
+            bval = st[2] if st[0] != 'mid' else st[4]
+    # reference
+    cur, exp_err = lit, None
+    for i, st in enumerate(stmts):
+        r = pt_reference(cur, st)
+        if r[0] == 'err':
+            exp_err = (r[1], 30 + 10 * i)
+            break
+        if r[0] == 'either':
+            raise ValueError('unpinned case generated')
+        cur = r[1]
+    casej = {'op': 'progtext', 'program': lines, 'B$': bval, 'variant': variant}
+    res.case(('progtext', lit, variant, tuple(stmts)), nontrivial=bool(lit))
+    res.count('program_text_target_cases')
+    if len(stmts) > 1:
+        res.count('second_inplace_on_same_target_cases')
+    kinds = '+'.join(st[0] for st in stmts)
+    try:
+        box.ex(b'NEW')
+        for l in lines:
+            box.ex(l)
+        for run_no in (1, 2):
+            box.ex(b'CLEAR')
+            box.ex(b'DIM T$(3)')
+            box.ex(b'T$(3)="guard3"')
+            box.set('B$', bval)
+            out = box.ex(b'GOTO 10')
+            code, line = h.err_of(out)
+            got_t = box.get('T$()')[int(tgt[3:4])] if tgt.startswith(b'T$(') else box.get(tgt.decode())
+            got_o = box.get('T$()')[int(origin[3:4])] if origin.startswith(b'T$(') else box.get(origin.decode())
+            guard = box.get('T$()')[3]
+            b_after = box.get('B$')
+            if sample and run_no == 1:
+                res.sample({'program': lines, 'B$': bval[:24], 'expected_target': cur[:60], 'observed_target': got_t[:60]})
+            suffix = '' if run_no == 1 else ':second-run-of-the-same-program'
+            if exp_err is None and code:
+                res.violation('%s:program-text-target:error-class%s' % (kinds, suffix),
+                              'program %r with B$=%r -> error %d in %r, reference: no error' % (lines, bval[:30], code, line), casej)
+                break
+            if exp_err is not None and (code, line) != exp_err:
+                res.violation('%s:program-text-target:error-class%s' % (kinds, suffix),
+                              'program %r with B$=%r -> error %r in %r, reference: error %d in %d' % (
+                                  lines, bval[:30], code, line, exp_err[0], exp_err[1]), casej)
+                break
+            if code == 5:
+                res.count('ifc_seen')
+            if got_t != cur:
+                if len(got_t) != len(lit):
+                    key = '%s:program-text-target:target-length-changed%s' % (kinds, suffix)
+                else:
+                    key = '%s:program-text-target:value%s' % (kinds, suffix)
+                res.violation(key, 'program %r with B$=%r: %s reads %r, reference %r' % (
+                    lines, bval[:30], tgt.decode(), got_t[:60], cur[:60]), casej)
+                break
+            if origin != tgt and got_o != lit:
+                res.violation('%s:program-text-target:in-place-on-copy-changed-the-original' % kinds,
+                              'program %r: %s reads %r after modifying its copy %s in place (was %r)' % (
+                                  lines, origin.decode(), got_o[:60], tgt.decode(), lit[:60]), casej)
+                break
+            if guard != b'guard3' or b_after != bval:
+                res.violation('%s:program-text-target:other-variable-changed' % kinds,
+                              'program %r: T$(3)=%r B$=%r afterwards' % (lines, guard, b_after[:30]), casej)
+                break
+        box.ex(b'NEW')
+        box.ex(b'DIM T$(3)')
+    except h.Internal as e:
+        res.violation(e.key, '%s while running %r' % (e, lines), casej)
+        runner.close()
+        runner.calls = 1
+
+
+def pt_directed():
+    """Seed-independent table: every variant x LSET / RSET / MID$= (+ a second in-place statement)."""
+    out = []
+    lits = [b'12345678', b'a', b'', b'literal in the program text, 40 chars...']
+    for lit in lits:
+        for variant in sorted(PT_VARIANTS):
+            for src in (b'xy', b'', b'longer than the target is, by far.......!'):
+                for form in ('lit', 'var'):
+                    out.append((lit, variant, [('lset', form, src)]))
+                    out.append((lit, variant, [('rset', form, src)]))
+            for start in (1, 2, len(lit), len(lit) + 1, 0):
+                for n in (None, 1, 3):
+                    out.append((lit, variant, [('mid', start, n, 'lit', b'QRS')]))
+            out.append((lit, variant, [('mid', 1, 2, 'var', b'\x00\xff!')]))
+            # a second in-place statement on the same target
+            out.append((lit, variant, [('lset', 'lit', b'xy'), ('rset', 'lit', b'z')]))
+            out.append((lit, variant, [('rset', 'lit', b'xy'), ('mid', 1, 1, 'lit', b'#')]))
+            out.append((lit, variant, [('mid', 1, 1, 'lit', b'#'), ('lset', 'var', b'ab')]))
+            out.append((lit, variant, [('mid', 2, None, 'var', b'uv'), ('mid', 1, 1, 'var', b'uv')]))
+    return out
+
+
+def pt_random(rng):
+    n = rng.choice((0, 1, 2, 3, 8, 8, 12, 20, 40, rng.randint(0, 60)))
+    lit = bytes(rng.choice(SAFE_LIT) for _ in range(n))
+    variant = rng.choice(sorted(PT_VARIANTS))
+    bval = rand_string(rng)
+    stmts = []
+    for _ in range(rng.choice((1, 1, 2))):
+        form = rng.choice(('lit', 'var'))
+        if form == 'lit':
+            src = bytes(rng.choice(SAFE_LIT) for _ in range(rng.choice((0, 1, 2, 5, n, n + 3))))
+        else:
+            src = bval
+        q = rng.random()
+        if q < 0.35:
+            stmts.append(('lset', form, src))
+        elif q < 0.7:
+            stmts.append(('rset', form, src))
+        else:
+            start = rng.choice((1, 1, 2, max(1, n), n + 1, 0, rng.randint(1, max(1, n))))
+            stmts.append(('mid', start, rng.choice((None, 1, 2, 5, 255)), form, src))
+    return lit, variant, stmts
+
 # ---------------------------------------------------------------------------------------------
 # generators
 
@@ -511,10 +682,16 @@ def run_shard(spec, res):
             cases = directed_cases()[spec['part']::spec['parts']]
             for i, c in enumerate(cases):
                 runner.run(c, sample=(i in (0, 500)))
-            res.count('directed_cases', len(cases))
+            pt = pt_directed()[spec['part']::spec['parts']]
+            for i, (lit, variant, stmts) in enumerate(pt):
+                run_progtext(runner, lit, variant, stmts, sample=(i == 0))
+            res.count('directed_cases', len(cases) + len(pt))
         elif kind == 'random':
             for i in range(spec['n']):
-                runner.run(rand_case(rng), sample=(i < 1 and spec.get('part', 0) < 4))
+                if rng.random() < 0.04:
+                    run_progtext(runner, *pt_random(rng), sample=(i < 60 and spec.get('part', 0) == 0))
+                else:
+                    runner.run(rand_case(rng), sample=(i < 1 and spec.get('part', 0) < 4))
         else:
             raise ValueError(kind)
     finally:
